@@ -299,7 +299,7 @@ type shape struct {
 	retry   bool // a discarded first attempt (502 with its own markers) precedes
 }
 
-var shapeHeaders = []string{"none", "X-A", "duplicate-values", "content-length-n", "content-length-0"}
+var shapeHeaders = []string{"none", "X-A", "duplicate-values", "content-length-n", "content-length-0", "automatic-headers-suppressed"}
 var shapeBodies = []string{"none", "1-byte", "3-writes", "over-mem-threshold", "2-writes-then-empty-write", "only-an-empty-write"}
 
 func (s shape) String() string {
@@ -403,6 +403,14 @@ func runShape(s shape, addr string, setShape func(shape), rep *lib.Report) {
 		wantH["X-Dup"] = []string{"a", "b", "a"}
 	}
 	wantH["X-Final"] = []string{"yes"}
+	if s.headers == 5 {
+		for _, k := range []string{"Content-Type", "Date"} {
+			if _, present := r.Header[k]; present {
+				rep.Violate("C07:headers-differ:"+kind, fmt.Sprintf("%v: the final attempt switched the automatic %s header off, the client received %s: %v", s, k, k, r.Header[k]), what())
+				return
+			}
+		}
+	}
 	for k, v := range wantH {
 		if fmt.Sprint(r.Header[k]) != fmt.Sprint(v) {
 			rep.Violate("C07:headers-differ:"+kind, fmt.Sprintf("%v: header %s = %v, the final attempt set %v", s, k, r.Header[k], v), what())
@@ -469,6 +477,10 @@ func shapeServer() (*lib.Server, func(shape)) {
 			w.Header().Set("Content-Length", fmt.Sprint(n))
 		case 4:
 			w.Header().Set("Content-Length", "0")
+		case 5:
+			// what net/http documents for switching off an automatic header: the key present with no value
+			w.Header()["Content-Type"] = nil
+			w.Header()["Date"] = nil
 		}
 		w.Header().Set("X-Final", "yes")
 		if cur.status != 0 {
